@@ -1639,6 +1639,10 @@ func (m *MeasurementFields) CreateFieldIfNotExists(name []byte, typ influxql.Dat
 		return nil
 	}
 
+	if verifhook.Enabled {
+		verifhook.Yield("shard.field.create.locking", string(name))
+	}
+
 	m.mu.Lock()
 	defer m.mu.Unlock()
 
